@@ -5,6 +5,8 @@ From BWGen Require Import ExtTable.
 From BWP Require Import TextFacts Suffix_proofs Context_proofs.
 From BW Require Import Main.
 From BWP Require Import Main_proofs.
+From BW Require Import Lang.
+From BWP Require Import Lang_proofs.
 
 (* Every registered suffix (incl. d.ts, go.mod, go.sum, go.work) selects its own grammar, whatever the stem (dots included) and directories. *)
 Theorem C16_registered_suffix : forall e g dir s,
@@ -80,3 +82,19 @@ Theorem C16_mapping_trimmed : forall k v, ~ In 61 k ->
   parse_extension (k ++ 61 :: v) = Some (trim k, trim v).
 Proof. exact parse_extension_trims. Qed.
 Print Assumptions C16_mapping_trimmed.
+
+(* The model's table of comment conventions (which normaliser each language's visitor applies, theories/Lang.v) has exactly the registered suffixes, as reflected from language_parsers() on every run. *)
+Theorem C16_family_table_covers_registered_suffixes : map fst family_table = map fst ext_table.
+Proof. exact family_table_keys. Qed.
+Print Assumptions C16_family_table_covers_registered_suffixes.
+
+(* Suffixes that share one parser object share one comment convention. *)
+Theorem C16_family_respects_grammar : same_class_same_family = true.
+Proof. exact family_respects_grammar. Qed.
+Print Assumptions C16_family_respects_grammar.
+
+(* A file name selects a comment convention exactly when it selects a grammar, under any -E map. *)
+Theorem C16_family_iff_grammar : forall m p,
+  family_of m p = None <-> grammar_of ext_table m p = None.
+Proof. exact family_iff_grammar. Qed.
+Print Assumptions C16_family_iff_grammar.
